@@ -127,6 +127,17 @@ func (m *Manager) connect(recursed bool, closeGen uint64) (err error) {
 	return
 }
 
+// `Close` sets the state to disconnected. When it does so before `reconnect` sets the state to reconnecting
+// (between two attempts), `reconnect` gives up as it should, but the state it leaves behind must not be
+// 'reconnecting': nobody is reconnecting, and `ClientSocket.Connect` doesn't open the manager in that state.
+func (m *Manager) notReconnecting() {
+	m.stateMu.Lock()
+	if m.state == clientConnStateReconnecting {
+		m.state = clientConnStateDisconnected
+	}
+	m.stateMu.Unlock()
+}
+
 func (m *Manager) reconnect(recursed bool) {
 	m.debug.Log("`reconnect` called")
 
@@ -180,6 +191,7 @@ func (m *Manager) reconnect(recursed bool) {
 	if m.skipReconnect {
 		m.skipReconnectMu.RUnlock()
 		m.debug.Log("Skipping reconnect")
+		m.notReconnecting()
 		return
 	}
 	m.skipReconnectMu.RUnlock()
@@ -191,6 +203,7 @@ func (m *Manager) reconnect(recursed bool) {
 	if m.skipReconnect {
 		m.skipReconnectMu.RUnlock()
 		m.debug.Log("Skipping reconnect")
+		m.notReconnecting()
 		return
 	}
 	m.skipReconnectMu.RUnlock()
